@@ -8,6 +8,8 @@ import (
 	"runtime/debug"
 	"strings"
 	"sync"
+	"syscall"
+	"time"
 	"unicode/utf8"
 
 	at "github.com/DanielSvub/anytype"
@@ -608,6 +610,45 @@ func runC04(c *fw.Ctx) {
 		oo := doParseObject(string(want))
 		if !sameOutcome(of, oo) {
 			c.Violate("parsefile-differs-from-parseobject", "ParseFile("+quoteBytes(path)+"); os.ReadFile of that path gives "+quoteBytes(string(want)), fmt.Sprintf("ParseObject: err=%q tree=%s", oo.Err, spec.Trunc(oo.Canon, 300)), fmt.Sprintf("ParseFile: err=%q tree=%s", of.Err, spec.Trunc(of.Canon, 300)))
+		}
+	})
+	// a path whose size as reported by Stat is not what reading it delivers: a named pipe fed by a writer
+	c.Cases("fifo", c.N(3, 20), true, func(i int, r0 *rng.R) {
+		doc := []string{`{"from":"a pipe","n":[1,2,3]}`, "{\"big\":\"" + strings.Repeat("x", 70000) + "\"}", `{"broken":`}[i%3]
+		fifo := filepath.Join(dir, fmt.Sprintf("pipe%d", i))
+		os.Remove(fifo)
+		if err := syscall.Mkfifo(fifo, 0o600); err != nil {
+			c.Count("fifo_not_available")
+			return
+		}
+		defer os.Remove(fifo)
+		go func() {
+			if w, err := os.OpenFile(fifo, os.O_WRONLY, 0); err == nil {
+				w.Write([]byte(doc))
+				w.Close()
+			}
+		}()
+		done := make(chan parseOutcome, 1)
+		go func() { done <- doParseFile(fifo) }()
+		var of parseOutcome
+		select {
+		case of = <-done:
+		case <-time.After(20 * time.Second):
+			// nobody opened the pipe for reading (or the read never ends): unblock the writer and call it inconclusive
+			if rd, err := os.OpenFile(fifo, os.O_RDONLY|syscall.O_NONBLOCK, 0); err == nil {
+				rd.Close()
+			}
+			c.Inconclusive("ParseFile on a named pipe did not return within 20 s")
+			return
+		}
+		c.Count("fifo_calls")
+		c.Distinct(fmt.Sprintf("fifo %d", i))
+		oo := doParseObject(doc)
+		if !checkOutcome(c, "ParseFile", fifo, of) {
+			return
+		}
+		if !sameOutcome(of, oo) {
+			c.Violate("parsefile-differs-from-parseobject", "ParseFile on a named pipe that delivers "+quoteBytes(spec.Trunc(doc, 200)), fmt.Sprintf("ParseObject: err=%q tree=%s", oo.Err, spec.Trunc(oo.Canon, 200)), fmt.Sprintf("ParseFile: err=%q tree=%s", of.Err, spec.Trunc(of.Canon, 200)))
 		}
 	})
 	c.Cases("badpaths", 6, true, func(i int, r *rng.R) {
